@@ -211,6 +211,35 @@ def run(ctx):
                       "", None, p.describe())
 
     # ------------------------------------------------------------ C19-c bytes behind the header survive
+    # the unframed readers hand out what is buffered before they report anything else
+    ars = prog.find(r"^<h3::stream::BufRecvStream as (futures_io|tokio)::.*AsyncRead>::poll_read$")
+    ctx.floor("C19-c", "AsyncRead impls of BufRecvStream", len(ars), 2)
+    for b in ars:
+        ps = [p for p in ru.all_paths(ctx, "C19-c", b, max_visits=1) if p.end == "return"]
+        n_ok = 0
+        for p in ps:
+            hr = [t[2] for t in p.tests if t[3][0] == "call" and pa.short(t[3][1]) == "has_remaining"]
+            took = [lab for _, lab, _ in p.variant_tests("take_chunk")]
+            polled = p.has_call("h3::stream::BufRecvStream::poll_read")
+            if polled:
+                ctx.check(hr[:1] == ["false"], "C19-c", b.key, "transport polled only when nothing is buffered",
+                          "the reader polls the transport on a path where has_remaining() was %s: with bytes already buffered (e.g. the "
+                          "payload that arrived together with the stream header) it may suspend without delivering them" % hr, "", None, p.describe())
+            if not p.ret_shape().startswith("Ready(Ok"):
+                continue
+            n_ok += 1
+            if not took:
+                ctx.check(hr[:1] == ["false"] and polled, "C19-c", b.key, "end of stream reported only with an empty buffer",
+                          "the reader returns %s without taking a chunk on a path where has_remaining() was %s and the transport was %spolled: "
+                          "buffered payload (behind a stream header, or followed by FIN) would be dropped" % (p.ret_shape(), hr, "" if polled else "not "),
+                          "", None, p.describe())
+            elif took[-1] == "Some":
+                cp = p.calls("copy_from_slice", "put_slice")
+                ok = len(cp) == 1 and any("take_chunk" in pa.vfmt(a) for a in cp[0][3][1:])
+                ctx.check(ok, "C19-c", b.key, "the taken chunk is what is copied out",
+                          "a chunk is taken from the buffer but %s" % ("not copied to the caller" if not cp else "something else is copied: %s" % pa.vfmt(cp[0][3][-1])[:80]),
+                          "", None, p.describe())
+        ctx.floor("C19-c", "Ready(Ok) paths of %s" % b.key, n_ok, 4)
     b = ru.need(ctx, "C19-c", "h3::frame::FrameStream::into_inner")
     if b:
         o = ru.ret(prog, b)
